@@ -1,0 +1,193 @@
+//go:build verif
+// +build verif
+
+package raft
+
+// ---------------------------------------------------------------------------
+// Wire encodings (C18). Ghost byte streams (T-std: io.Reader / io.Writer implementations):
+//   wdata[w][j], wlen[w] : the bytes written to writer w so far and their number
+//   rdata[r][j], rpos[r] : the byte stream behind reader r and the read position
+//   rend[r]              : total length of that stream (reads beyond it fail)
+// Words in a stream are gword(wdata[w], p) / gword(rdata[r], p): the little-endian word of
+// the 8 (gword32: 4) bytes at position p. An encoder and the matching decoder use the same
+// positions, so decoding what was encoded yields the encoded value (round trip), consumes
+// exactly the bytes produced (framing), and a stream that ends early yields an error.
+
+//@ ghost var wdata map[uint64]map[uint64]uint64
+//@ ghost var wlen map[uint64]uint64
+//@ ghost var rdata map[uint64]map[uint64]uint64
+//@ ghost var rpos map[uint64]uint64
+//@ ghost var rend map[uint64]uint64
+
+//@ pure WroteSome(w io.Writer) bool = wlen[ref(w)] >= old(wlen[ref(w)]) && forall(j, j < old(wlen[ref(w)]) ==> wdata[ref(w)][j] == old(wdata[ref(w)][j])) && forall(j, j + 8 <= old(wlen[ref(w)]) ==> gword(wdata[ref(w)], j) == old(gword(wdata[ref(w)], j))) && forall(j, j + 4 <= old(wlen[ref(w)]) ==> gword32(wdata[ref(w)], j) == old(gword32(wdata[ref(w)], j))) && forall(q, q != ref(w) ==> wdata[q] == old(wdata[q]) && wlen[q] == old(wlen[q]))
+//@ pure Wrote(w io.Writer, n int) bool = wlen[ref(w)] == old(wlen[ref(w)]) + n && WroteSome(w)
+//@ pure Consumed(r io.Reader, n int) bool = rpos[ref(r)] == old(rpos[ref(r)]) + n && forall(q, q != ref(r) ==> rpos[q] == old(rpos[q]))
+//@ pure ConsumedSome(r io.Reader) bool = rpos[ref(r)] >= old(rpos[ref(r)]) && forall(q, q != ref(r) ==> rpos[q] == old(rpos[q]))
+//@ pure Avail(r io.Reader) int = rend[ref(r)] - rpos[ref(r)]
+
+//@ func io.Writer.Write params(w, p)
+//@   trusted
+//@   modifies wdata, wlen
+//@   ensures result1 == nil ==> result0 == len(p) && Wrote(w, len(p))
+//@   ensures result1 == nil ==> forall(j, old(wlen[ref(w)]) <= j && j < wlen[ref(w)] ==> wdata[ref(w)][j] == raw(p, base(p) + (j - old(wlen[ref(w)]))))
+//@   ensures result1 == nil && len(p) == 8 ==> gword(wdata[ref(w)], old(wlen[ref(w)])) == wordat(p, base(p))
+//@   ensures result1 == nil && len(p) == 4 ==> gword32(wdata[ref(w)], old(wlen[ref(w)])) == word32at(p, base(p))
+//@   ensures WroteSome(w)
+
+//@ func io.ByteWriter.WriteByte params(w, c)
+//@   trusted
+//@   modifies wdata, wlen
+//@   ensures result0 == nil ==> Wrote(w, 1) && wdata[ref(w)][old(wlen[ref(w)])] == c
+//@   ensures WroteSome(w)
+
+//@ func io.WriteString params(w, s)
+//@   trusted
+//@   modifies wdata, wlen
+//@   ensures result1 == nil ==> Wrote(w, len(s)) && forall(j, old(wlen[ref(w)]) <= j && j < wlen[ref(w)] ==> wdata[ref(w)][j] == strbyte(s, j - old(wlen[ref(w)])))
+//@   ensures WroteSome(w)
+
+//@ func io.ReadFull params(r, buf)
+//@   trusted
+//@   modifies rpos, contents(buf)
+//@   ensures (result1 == nil) == (len(buf) <= old(Avail(r)))
+//@   ensures result1 == nil ==> result0 == len(buf) && Consumed(r, len(buf))
+//@   ensures result1 == nil ==> forall(p, base(buf) <= p && p < base(buf) + len(buf) ==> raw(buf, p) == rdata[ref(r)][old(rpos[ref(r)]) + (p - base(buf))])
+//@   ensures result1 == nil && len(buf) == 8 ==> wordat(buf, base(buf)) == gword(rdata[ref(r)], old(rpos[ref(r)]))
+//@   ensures result1 == nil && len(buf) == 4 ==> word32at(buf, base(buf)) == gword32(rdata[ref(r)], old(rpos[ref(r)]))
+//@   ensures ConsumedSome(r)
+
+//@ func io.ByteReader.ReadByte params(r)
+//@   trusted
+//@   modifies rpos
+//@   ensures (result1 == nil) == (1 <= old(Avail(r)))
+//@   ensures result1 == nil ==> Consumed(r, 1) && result0 == rdata[ref(r)][old(rpos[ref(r)])]
+//@   ensures ConsumedSome(r)
+
+//@ func (encoding/binary.littleEndian).Uint32 params(le, b)
+//@   trusted
+//@   requires [C15.word-bounds] len(b) >= 4
+//@   ensures result0 == word32at(b, base(b))
+
+//@ func (encoding/binary.littleEndian).PutUint32 params(le, b, v)
+//@   trusted
+//@   requires [C15.word-bounds] len(b) >= 4
+//@   modifies contents(b)
+//@   ensures word32at(b, base(b)) == v
+//@   ensures forall(p, p < base(b) || p >= base(b) + 4 ==> raw(b, p) == old(raw(b, p)))
+
+// ---- primitives ---------------------------------------------------------------------
+
+//@ func writeUint64
+//@   requires w != nil
+//@   modifies wdata, wlen
+//@   ensures [C18.u64-enc] result0 == nil ==> Wrote(w, 8) && gword(wdata[ref(w)], old(wlen[ref(w)])) == v
+//@   ensures [C18.enc-frame] WroteSome(w)
+
+//@ func readUint64
+//@   requires r != nil
+//@   modifies rpos
+//@   ensures [C18.u64-dec] result1 == nil ==> Consumed(r, 8) && result0 == gword(rdata[ref(r)], old(rpos[ref(r)]))
+//@   ensures [C18.truncated-is-error] (result1 == nil) == (8 <= old(Avail(r)))
+//@   ensures [C18.dec-frame] ConsumedSome(r)
+
+//@ func writeUint32
+//@   requires w != nil
+//@   modifies wdata, wlen
+//@   ensures [C18.u32-enc] result0 == nil ==> Wrote(w, 4) && gword32(wdata[ref(w)], old(wlen[ref(w)])) == v
+//@   ensures [C18.enc-frame] WroteSome(w)
+
+//@ func readUint32
+//@   requires r != nil
+//@   modifies rpos
+//@   ensures [C18.u32-dec] result1 == nil ==> Consumed(r, 4) && result0 == gword32(rdata[ref(r)], old(rpos[ref(r)]))
+//@   ensures [C18.truncated-is-error] (result1 == nil) == (4 <= old(Avail(r)))
+//@   ensures [C18.dec-frame] ConsumedSome(r)
+
+//@ func writeUint8
+//@   requires w != nil
+//@   modifies wdata, wlen
+//@   ensures [C18.u8-enc] result0 == nil ==> Wrote(w, 1) && wdata[ref(w)][old(wlen[ref(w)])] == v
+//@   ensures [C18.enc-frame] WroteSome(w)
+
+//@ func readUint8
+//@   requires r != nil
+//@   modifies rpos
+//@   ensures [C18.u8-dec] result1 == nil ==> Consumed(r, 1) && result0 == rdata[ref(r)][old(rpos[ref(r)])]
+//@   ensures [C18.truncated-is-error] (result1 == nil) == (1 <= old(Avail(r)))
+//@   ensures [C18.dec-frame] ConsumedSome(r)
+
+//@ func writeBool
+//@   requires w != nil
+//@   modifies wdata, wlen
+//@   ensures [C18.bool-enc] result0 == nil ==> Wrote(w, 1) && (wdata[ref(w)][old(wlen[ref(w)])] > 0) == v && wdata[ref(w)][old(wlen[ref(w)])] <= 1
+//@   ensures [C18.enc-frame] WroteSome(w)
+
+//@ func readBool
+//@   requires r != nil
+//@   modifies rpos
+//@   ensures [C18.bool-dec] result1 == nil ==> Consumed(r, 1) && result0 == (rdata[ref(r)][old(rpos[ref(r)])] > 0)
+//@   ensures [C18.truncated-is-error] (result1 == nil) == (1 <= old(Avail(r)))
+//@   ensures [C18.dec-frame] ConsumedSome(r)
+
+// ---- fixed-width messages ----------------------------------------------------------------
+
+//@ pure EncReq(d int, p int, term uint64, src uint64) bool = gword(d, p) == term && gword(d, p+8) == src
+
+//@ func (*req).encode
+//@   requires w != nil
+//@   modifies wdata, wlen
+//@   ensures [C18.req-enc] result0 == nil ==> Wrote(w, 16) && EncReq(wdata[ref(w)], old(wlen[ref(w)]), req.term, req.src)
+//@   ensures [C18.enc-frame] WroteSome(w)
+
+//@ func (*req).decode
+//@   requires r != nil
+//@   modifies rpos, req.term, req.src
+//@   ensures [C18.req-dec] result0 == nil ==> Consumed(r, 16) && EncReq(rdata[ref(r)], old(rpos[ref(r)]), req.term, req.src)
+//@   ensures [C18.truncated-is-error] (result0 == nil) == (16 <= old(Avail(r)))
+//@   ensures [C18.dec-frame] ConsumedSome(r)
+
+//@ pure EncVoteReq(d int, p int, v *voteReq) bool = EncReq(d, p, v.term, v.src) && gword(d, p+16) == v.lastLogIndex && gword(d, p+24) == v.lastLogTerm && (d[p+32] > 0) == v.transfer
+
+//@ func (*voteReq).encode
+//@   requires w != nil
+//@   modifies wdata, wlen
+//@   ensures [C18.votereq-enc] result0 == nil ==> Wrote(w, 33) && EncVoteReq(wdata[ref(w)], old(wlen[ref(w)]), req)
+//@   ensures [C18.enc-frame] WroteSome(w)
+
+//@ func (*voteReq).decode
+//@   requires r != nil
+//@   modifies rpos, all(req)
+//@   ensures [C18.votereq-dec] result0 == nil ==> Consumed(r, 33) && EncVoteReq(rdata[ref(r)], old(rpos[ref(r)]), req)
+//@   ensures [C18.truncated-is-error] (result0 == nil) == (33 <= old(Avail(r)))
+//@   ensures [C18.dec-frame] ConsumedSome(r)
+
+//@ pure EncAppendReq(d int, p int, v *appendReq) bool = EncReq(d, p, v.term, v.src) && gword(d, p+16) == v.prevLogIndex && gword(d, p+24) == v.prevLogTerm && gword(d, p+32) == v.ldrCommitIndex && gword(d, p+40) == v.numEntries
+
+//@ func (*appendReq).encode
+//@   requires w != nil
+//@   modifies wdata, wlen
+//@   ensures [C18.appendreq-enc] result0 == nil ==> Wrote(w, 48) && EncAppendReq(wdata[ref(w)], old(wlen[ref(w)]), req)
+//@   ensures [C18.enc-frame] WroteSome(w)
+
+//@ func (*appendReq).decode
+//@   requires r != nil
+//@   modifies rpos, all(req)
+//@   ensures [C18.appendreq-dec] result0 == nil ==> Consumed(r, 48) && EncAppendReq(rdata[ref(r)], old(rpos[ref(r)]), req)
+//@   ensures [C18.truncated-is-error] (result0 == nil) == (48 <= old(Avail(r)))
+//@   ensures [C18.dec-frame] ConsumedSome(r)
+
+//@ pure EncIdentityReq(d int, p int, v *identityReq) bool = EncReq(d, p, v.term, v.src) && gword(d, p+16) == v.cid && gword(d, p+24) == v.nid
+
+//@ func (*identityReq).encode
+//@   requires w != nil
+//@   modifies wdata, wlen
+//@   ensures [C18.identityreq-enc] result0 == nil ==> Wrote(w, 32) && EncIdentityReq(wdata[ref(w)], old(wlen[ref(w)]), req)
+//@   ensures [C18.encode-error-propagates] result0 == nil ==> wlen[ref(w)] == old(wlen[ref(w)]) + 32
+//@   ensures [C18.enc-frame] WroteSome(w)
+
+//@ func (*identityReq).decode
+//@   requires r != nil
+//@   modifies rpos, all(req)
+//@   ensures [C18.identityreq-dec] result0 == nil ==> Consumed(r, 32) && EncIdentityReq(rdata[ref(r)], old(rpos[ref(r)]), req)
+//@   ensures [C18.truncated-is-error] (result0 == nil) == (32 <= old(Avail(r)))
+//@   ensures [C18.dec-frame] ConsumedSome(r)
